@@ -32,7 +32,7 @@ for net, q, dc, tiers in ((2, 0, 3, ("quick", "thorough")), (2, 2, 3, ("quick", 
     OBLIGATIONS.append(dict(
         name="C12.d /l1-info-tree-index through the real handler: node of network %d asked for network %d, deposit %d: a covering index or an error" % (net, q, dc),
         harness=B + "ZZVerif_C12_IndexHandler", params={"NET": net, "Q": q, "DC": dc}, tiers=tiers,
-        reach=["foreign"] if q not in (0, net) else ["found", "notcovered"], time_limit_s=900,
+        reach=["foreign"] if q not in (0, net) else (["found"] if dc == 0 else ["found", "notcovered"]), time_limit_s=900,
         bounds="two L1 info updates in blocks 1..4, every non-decreasing last-deposit index per network (8 bit); request parameters concrete"))
 ASSUMPTIONS = ["the L1 info syncer and the bridge syncers answer as C01/C08/C11 establish for the real ones (fakes in the harness: lookups over ordered lists)",
                "exit roots are distinct tags; the deposit index of an exit root is the index of the last leaf it contains",
